@@ -10,11 +10,10 @@
     - add:   [cid] becomes recorded only by a step that is a CALL [cid];
     - once:  within one step's output nothing for [cid] follows its final reply.
     Conclusion: after a final reply for [cid], any further reply for [cid] is
-    preceded by a new CALL [cid].  The one dealer step that does not satisfy
-    "final" is a non-progress YIELD while the caller is still sending chunks
-    ([inv_inprogress], the documented exception in [reply_owned]); an
-    instantiation over [Realm.run] has to exclude it (or treat that RESULT as
-    not final). *)
+    preceded by a new CALL [cid].  Every dealer function satisfies the four
+    facts from any well-formed state ([dealer_fn_step_ok] below), so the
+    conclusion holds for every history of dealer function applications
+    ([dealer_reply_unique]). *)
 From Nexus Require Import Router.Realm Router.DealerLib Router.DealerProofs Router.DealerReg
      Router.DealerCall Router.DealerWfCalls Router.DealerWfRegs Router.DealerWf Router.DealerRemove
      Router.DealerReply Router.DealerTimers Router.DealerOwned.
@@ -144,6 +143,235 @@ Proof.
     + intros c x. rewrite cfs_calls, cget_cset. destruct (pair_eqb_spec c (s_id caller, req)); auto.
 Qed.
 
+(** ** Every dealer function application is an admissible step *)
+Definition drec (d : dealer) (cid : callid) : Prop := cget (d_calls d) cid <> None.
+Definition dis_call (l : option callid) (cid : callid) : Prop := l = Some cid.
+Definition dstep := tstep dealer (option callid).
+Definition dstep_ok := step_ok dealer (option callid) drec dis_call.
+
+(** within one output: nothing for [cid] follows the final reply for [cid] *)
+Definition once (o : list out) : Prop :=
+  forall o1 m o2 cid, o = o1 ++ m :: o2 -> reply_of m = Some (cid, true) ->
+    forall m', In m' o2 -> ~ replies_to cid m'.
+
+Lemma once_nofinal : forall o, (forall m cid, In m o -> reply_of m <> Some (cid, true)) -> once o.
+Proof.
+  intros o H o1 m o2 cid E F. exfalso. eapply H; [|exact F]. rewrite E. apply in_or_app. right. left. reflexivity.
+Qed.
+
+Lemma once_last : forall o1 x, (forall m, In m o1 -> reply_of m = None) -> once (o1 ++ [x]).
+Proof.
+  induction o1 as [|y o1 IH]; intros x H a m b cid E F m' Hin.
+  - destruct a as [|a0 a]; cbn in E.
+    + inversion E; subst. destruct Hin.
+    + inversion E as [[E1 E2]]. destruct a; discriminate E2.
+  - destruct a as [|a0 a]; cbn in E; inversion E as [[E1 E2]]; subst.
+    + rewrite (H m (or_introl eq_refl)) in F. discriminate.
+    + eapply (IH x); eauto. intros m0 Hm0. apply H. right. exact Hm0.
+Qed.
+
+Lemma once_app : forall o n,
+    once o -> once n ->
+    (forall m cid, In m o -> reply_of m = Some (cid, true) -> forall m', In m' n -> ~ replies_to cid m') ->
+    once (o ++ n).
+Proof.
+  intros o n Ho Hn Hx o1 m o2 cid E F m' Hin.
+  apply app_eq_app in E. destruct E as (l & [[E1 E2]|[E1 E2]]).
+  - (* o = o1 ++ l, m :: o2 = l ++ n *)
+    destruct l as [|x l]; cbn in E2.
+    + rewrite app_nil_r in E1. subst o1. eapply (Hn [] m o2); eauto.
+    + inversion E2; subst x o2. apply in_app_or in Hin. destruct Hin as [Hin|Hin].
+      * eapply (Ho o1 m l); eauto.
+      * eapply Hx; [| exact F | exact Hin]. rewrite E1. apply in_or_app. right. left. reflexivity.
+  - (* o1 = o ++ l, n = l ++ m :: o2 *)
+    eapply (Hn l m o2); eauto.
+Qed.
+
+(** the generic route: owned replies + no new records + once *)
+Lemma dstep_ok_of_owned : forall d d' o lb,
+    (forall m, In m o -> owned_reply d d' m) ->
+    (forall c x, cget (d_calls d') c = Some x -> cget (d_calls d) c = Some x) ->
+    once o -> dstep_ok (d, lb, o, d').
+Proof.
+  intros d d' o lb Hown Hsub Honce. constructor; unfold src, tgt, lab, outp; cbn [fst snd].
+  - intros m cid Hin [fin R]. left. destruct (Hown m Hin cid fin R) as [H _]. unfold drec. congruence.
+  - intros m cid Hin R. destruct (Hown m Hin cid true R) as [_ H]. unfold drec. rewrite (H eq_refl). auto.
+  - intros cid H. left. unfold drec in *. destruct (cget (d_calls d') cid) as [x|] eqn:E; [|congruence].
+    rewrite (Hsub _ _ E). discriminate.
+  - exact Honce.
+Qed.
+
+(** [once] for the two functions that can answer several calls *)
+Definition finals_forgotten (d : dealer) (o : list out) : Prop :=
+  forall m cid, In m o -> reply_of m = Some (cid, true) -> cget (d_calls d) cid = None.
+
+Lemma forgotten_shrinks : forall d d' o, shrinks d d' -> finals_forgotten d o -> finals_forgotten d' o.
+Proof.
+  intros d d' o S H m cid Hin F. specialize (H m cid Hin F).
+  destruct (cget (d_calls d') cid) eqn:E; [|reflexivity]. rewrite (sh_calls _ _ S _ _ E) in H. discriminate.
+Qed.
+
+Lemma cs_fold_once : forall lookup sid l d o,
+    calls_core d -> once o -> finals_forgotten d o ->
+    once (snd (fold_left (cancel_served lookup sid) l (d, o))).
+Proof.
+  intros lookup sid. induction l as [|[k e] l IH]; intros d o W Ho Hf; cbn [fold_left]; [exact Ho|].
+  destruct (cancel_served_cases lookup sid d o k e W) as [[E _]|(inv & Hi & Hs & Hp & E)]; rewrite E.
+  - apply IH; assumption.
+  - pose proof Hp as (Hc & _).
+    assert (Rg : forall cid, replies_to cid (gone_msg (inv_call inv)) -> cid = inv_call inv).
+    { intros cid [fin R]. cbn in R. rewrite pair_eta in R. inversion R. reflexivity. }
+    apply IH.
+    + eapply sd_core; eauto.
+    + apply once_app; [exact Ho | apply (once_last [] (gone_msg (inv_call inv))); intros m [] |].
+      intros m cid Hin F m' [<-|[]] R. apply Rg in R. subst cid. rewrite (Hf m _ Hin F) in Hc. discriminate.
+    + intros m cid Hin F. apply in_app_or in Hin. destruct Hin as [Hin|[<-|[]]].
+      * eapply forgotten_shrinks; [apply sd_shrinks | exact Hf | exact Hin | exact F].
+      * assert (cid = inv_call inv) by (apply Rg; eexists; exact F). subst cid.
+        rewrite sd_calls. apply cget_cdel_same.
+Qed.
+
+Lemma fire_fold_once : forall lookup (l : list (N * (N * callid))) d o,
+    calls_core d -> once o -> finals_forgotten d o ->
+    once (snd (fold_left (fire_step lookup) l (d, o))).
+Proof.
+  intros lookup. induction l as [|[tid [dl cid]] l IH]; intros d o W Ho Hf; cbn [fold_left]; [exact Ho|].
+  pose proof (fire_step_mono lookup d o (tid, (dl, cid)) W) as (W1 & S1 & _ & _).
+  destruct (fire_step_cases lookup d o tid dl cid) as [[_ E]|[(_ & E & _)|(_ & k & inv & x & Hp & Hc & E)]];
+    rewrite E in *; cbn [fst snd] in *.
+  - apply IH; assumption.
+  - apply IH; [exact W1 | exact Ho | eapply forgotten_shrinks; eauto].
+  - set (intr := if callee_can_cancel lookup inv then [interrupt_msg k inv e_timeout "killnowait"] else []) in *.
+    assert (Hintr : forall m, In m intr -> reply_of m = None).
+    { intros m H. unfold intr in H. destruct (callee_can_cancel lookup inv); [destruct H as [<-|[]]; reflexivity | destruct H]. }
+    assert (Rg : forall c, replies_to c (timeout_msg cid) -> c = cid).
+    { intros c [fin R]. cbn in R. rewrite pair_eta' in R. inversion R. reflexivity. }
+    apply pending_ct_fwd in Hp. destruct Hp as (Hcall & _).
+    apply IH; [exact W1 | |].
+    + apply once_app; [exact Ho | apply once_last; exact Hintr |].
+      intros m c Hin F m' Hin' R. apply in_app_or in Hin'. destruct Hin' as [Hin'|[<-|[]]].
+      * destruct R as [fin R]. rewrite (Hintr _ Hin') in R. discriminate.
+      * apply Rg in R. subst c. rewrite (Hf m _ Hin F) in Hcall. discriminate.
+    + intros m c Hin F. apply in_app_or in Hin. destruct Hin as [Hin|Hin].
+      * eapply forgotten_shrinks; [exact S1 | exact Hf | exact Hin | exact F].
+      * apply in_app_or in Hin. destruct Hin as [Hin|[<-|[]]].
+        -- rewrite (Hintr _ Hin) in F. discriminate.
+        -- assert (c = cid) by (apply Rg; eexists; exact F). subst c. rewrite dc_calls. apply cget_cdel_same.
+Qed.
+
+Lemma once_nil : once [].
+Proof. intros o1 m o2 cid E. destruct o1; discriminate E. Qed.
+Lemma forgotten_nil : forall d, finals_forgotten d [].
+Proof. intros d m cid []. Qed.
+
+(** one application of a dealer function from a well-formed state *)
+Definition call_state (r : call_result) (d : dealer) : dealer :=
+  match r with CallRefused d' _ => d' | CallAbort _ => d | CallInvoked d' _ _ => d' end.
+
+Inductive dealer_fn_step : dstep -> Prop :=
+| DS_cancel lookup lk d caller req opts : dealer_wf lookup d ->
+    dealer_fn_step (d, None, snd (cancel lk d caller req opts), fst (cancel lk d caller req opts))
+| DS_yield lookup d callee req opts args kw : dealer_wf lookup d ->
+    dealer_fn_step (d, None, snd (sync_yield d callee req opts args kw), fst (sync_yield d callee req opts args kw))
+| DS_error lookup d callee req det err args kw : dealer_wf lookup d ->
+    dealer_fn_step (d, None, snd (sync_error d callee req det err args kw), fst (sync_error d callee req det err args kw))
+| DS_fire lookup lk now d : dealer_wf lookup d ->
+    dealer_fn_step (d, None, snd (fire_timers lk now d), fst (fire_timers lk now d))
+| DS_remove lookup lk d sid : dealer_wf lookup d ->
+    dealer_fn_step (d, None, snd (fst (dealer_remove_session lk d sid)), fst (fst (dealer_remove_session lk d sid)))
+| DS_register lookup cfg d callee req opts proc : dealer_wf lookup d ->
+    dealer_fn_step (d, None, snd (fst (register cfg d callee req opts proc)), fst (fst (register cfg d callee req opts proc)))
+| DS_unregister lookup d sid req regid : dealer_wf lookup d ->
+    dealer_fn_step (d, None, snd (fst (unregister d sid req regid)), fst (fst (unregister d sid req regid)))
+| DS_call cfg lookup now d caller req opts proc args kw oracle : dealer_wf lookup d ->
+    dealer_fn_step (d, Some (s_id caller, req),
+                    call_out (call cfg lookup now d caller req opts proc args kw oracle),
+                    call_state (call cfg lookup now d caller req opts proc args kw oracle) d).
+
+Lemma once_short : forall o, (List.length o <= 1)%nat -> once o.
+Proof.
+  intros o H o1 m o2 cid E F m' Hin. subst o. rewrite app_length in H. cbn in H.
+  destruct o2; [destruct Hin | cbn in H; lia].
+Qed.
+
+Theorem dealer_fn_step_ok : forall t, dealer_fn_step t -> dstep_ok t.
+Proof.
+  intros t H. destruct H as [lookup lk d caller req opts WF|lookup d callee req opts args kw WF
+                            |lookup d callee req det err args kw WF|lookup lk now d WF|lookup lk d sid WF
+                            |lookup cfg d callee req opts proc WF|lookup d sid req regid WF
+                            |cfg lookup now d caller req opts proc args kw oracle WF];
+    pose proof (calls_grow_only_by_call_proof lookup d WF) as (G1 & G2 & G3 & G4 & G5 & G6 & G7 & G8).
+  - apply dstep_ok_of_owned; [intros m Hm; eapply cancel_replies; eauto | apply G1 |].
+    unfold cancel.
+    assert (Hsc : forall mode, once (snd (sync_cancel lk d caller req mode e_canceled []))).
+    { intros mode. destruct (sync_cancel_cases lk d caller req mode e_canceled []) as [E|(ikey & inv & x & Hp & Hc)].
+      - rewrite E. apply once_nil.
+      - rewrite (sync_cancel_live _ _ _ _ _ _ _ _ _ _ Hp Hc).
+        assert (Hi : forall mm, In mm (if negb (mode =? "skip")%string && callee_can_cancel lk inv
+                                      then [interrupt_msg ikey inv e_canceled mode] else []) -> reply_of mm = None).
+        { intros mm H. destruct (negb (mode =? "skip")%string && callee_can_cancel lk inv);
+            [destruct H as [<-|[]]; reflexivity | destruct H]. }
+        destruct (negb (mode =? "skip")%string && callee_can_cancel lk inv && (mode =? "kill")%string); cbn [snd].
+        + apply once_nofinal. intros m cid [<-|[]]. discriminate.
+        + apply once_last. exact Hi. }
+    destruct (_ || _ || _); [apply Hsc|]. destruct (String.eqb _ ""); [apply Hsc|].
+    cbn [snd]. apply once_nofinal. intros m cid [<-|[]]. discriminate.
+  - apply dstep_ok_of_owned; [| apply G2 |].
+    + intros m Hm cid fin R. destruct (yield_replies lookup d callee req opts args kw m WF Hm cid fin R)
+        as (Hc & inv & _ & _ & _ & Hf). auto.
+    + apply once_short. destruct (cget (d_invs d) (callee, req)) as [inv|] eqn:Hi.
+      * rewrite (sync_yield_owner _ _ _ _ _ _ _ Hi). cbn [snd]. destruct (cget (d_calls d) (inv_call inv)); cbn; lia.
+      * rewrite sync_yield_unknown by exact Hi. cbn [snd]. destruct (opt_bool opts "progress"); cbn; lia.
+  - apply dstep_ok_of_owned; [intros m Hm; eapply error_replies; eauto | apply G3 |].
+    apply once_short. destruct (cget (d_invs d) (callee, req)) as [inv|] eqn:Hi.
+    + rewrite (sync_error_owner _ _ _ _ _ _ _ _ Hi). destruct (cget (d_calls d) (inv_call inv)); cbn; lia.
+    + rewrite sync_error_unknown by exact Hi. cbn; lia.
+  - apply dstep_ok_of_owned; [intros m Hm; eapply fire_timers_replies; eauto | apply G4 |].
+    rewrite fire_timers_fold. apply fire_fold_once; [apply (wf_calls _ _ WF) | apply once_nil | apply forgotten_nil].
+  - apply dstep_ok_of_owned; [intros m Hm; eapply remove_session_replies; eauto | apply G5 |].
+    rewrite drs_out. apply cs_fold_once; [| apply once_nil | apply forgotten_nil].
+    apply (drs_core2 lookup lookup d sid WF (fun _ _ => eq_refl)).
+  - apply dstep_ok_of_owned; [| intros c x; rewrite G6; auto |].
+    + intros m Hm cid fin R. rewrite (register_no_reply _ _ _ _ _ _ _ Hm) in R. discriminate.
+    + apply once_nofinal. intros m cid Hm R. rewrite (register_no_reply _ _ _ _ _ _ _ Hm) in R. discriminate.
+  - apply dstep_ok_of_owned; [| intros c x; rewrite G7; auto |].
+    + intros m Hm cid fin R. rewrite (unregister_no_reply _ _ _ _ _ Hm) in R. discriminate.
+    + apply once_nofinal. intros m cid Hm R. rewrite (unregister_no_reply _ _ _ _ _ Hm) in R. discriminate.
+  - specialize (G8 cfg now caller req opts proc args kw oracle).
+    constructor; unfold src, tgt, lab, outp; cbn [fst snd].
+    + intros m cid Hin [fin R]. right.
+      destruct (call_replies _ _ _ _ _ _ _ _ _ _ _ m WF Hin cid fin R) as (-> & _). reflexivity.
+    + intros m cid Hin R.
+      destruct (call_replies _ _ _ _ _ _ _ _ _ _ _ m WF Hin cid true R) as (_ & _ & d' & E & Hn & _).
+      rewrite E. cbn [call_state]. unfold drec. rewrite Hn. auto.
+    + intros cid Hr. unfold drec, dis_call in *.
+      destruct (call cfg lookup now d caller req opts proc args kw oracle) as [d' o|o|d' c o]; cbn [call_state] in Hr.
+      * left. destruct (cget (d_calls d') cid) as [x|] eqn:E; [|congruence]. rewrite (G8 _ _ E). discriminate.
+      * left. exact Hr.
+      * destruct (cget (d_calls d') cid) as [x|] eqn:E; [|congruence].
+        destruct (G8 _ _ E) as [H| ->]; [left; rewrite H; discriminate | right; reflexivity].
+    + apply once_short.
+      pose proof (call_cases cfg lookup now d caller req opts proc args kw oracle) as H. inversion H; cbn; lia.
+Qed.
+
+(** C02, histories of dealer function applications: after the final reply for
+    [cid], a later reply for [cid] requires a CALL [cid] in between; within one
+    function's output nothing for [cid] follows its final reply. *)
+Theorem dealer_reply_unique_proof : forall s0 pre t1 mid t2 post cid m1 m2,
+    chained dealer (option callid) s0 (pre ++ t1 :: mid ++ t2 :: post) ->
+    Forall dealer_fn_step (pre ++ t1 :: mid ++ t2 :: post) ->
+    In m1 (outp _ _ t1) -> reply_of m1 = Some (cid, true) ->
+    In m2 (outp _ _ t2) -> replies_to cid m2 ->
+    (forall t, In t (mid ++ [t2]) -> lab _ _ t <> Some cid) -> False.
+Proof.
+  intros s0 pre t1 mid t2 post cid m1 m2 Hch Hst H1 F1 H2 R2 Hn.
+  eapply (reply_unique_abstract dealer (option callid) drec dis_call); eauto.
+  eapply Forall_impl; [|exact Hst]. apply dealer_fn_step_ok.
+Qed.
+
+Theorem dealer_reply_once_proof : forall t, dealer_fn_step t -> once (outp _ _ t).
+Proof. intros t H. destruct (dealer_fn_step_ok t H) as [_ _ _ O]. exact O. Qed.
+
 (** ** Non-vacuity: a three-step history of the model
     (the callee's ERROR ends call (10,7); the caller CALLs request 7 again;
     the new callee YIELDs) satisfies the hypotheses of [reply_unique_abstract]. *)
@@ -203,4 +431,50 @@ Proof.
     + eexists; split; [left; reflexivity | reflexivity].
     + eexists; split; [left; reflexivity | eexists; reflexivity].
     + split; reflexivity.
+Qed.
+
+(** the same three-step history as applications of dealer functions *)
+Definition hd1 : dealer := fst (sync_error d3 11 1 [] "com.err" [] []).
+Definition hcall : call_result := call cfg0 (lk 1 0) 9 hd1 s10 7 [] "com.x" [] [] 0.
+Definition hd2 : dealer := call_state hcall hd1.
+Definition hx1 : dstep :=
+  (d3, None, snd (sync_error d3 11 1 [] "com.err" [] []), fst (sync_error d3 11 1 [] "com.err" [] [])).
+Definition hx2 : dstep :=
+  (hd1, Some (s_id s10, 7), call_out (call cfg0 (lk 1 0) 9 hd1 s10 7 [] "com.x" [] [] 0),
+   call_state (call cfg0 (lk 1 0) 9 hd1 s10 7 [] "com.x" [] [] 0) hd1).
+Definition hx3 : dstep :=
+  (hd2, None, snd (sync_yield hd2 12 1 [] [vnat 5] []), fst (sync_yield hd2 12 1 [] [vnat 5] [])).
+
+Example dealer_reply_unique_ex :
+    chained dealer (option callid) d3 ([] ++ hx1 :: [hx2] ++ hx3 :: []) /\
+    Forall dealer_fn_step ([] ++ hx1 :: [hx2] ++ hx3 :: []) /\
+    (exists m1, In m1 (outp _ _ hx1) /\ reply_of m1 = Some ((10, 7), true)) /\
+    (exists m2, In m2 (outp _ _ hx3) /\ replies_to (10, 7) m2) /\
+    lab _ _ hx2 = Some (10, 7).
+Proof.
+  assert (W1 : dealer_wf (lk 1 0) hd1) by (apply sync_error_wf; exact wf_d3).
+  assert (E2 : exists d' o, hcall = CallInvoked d' (set_invgen s12 1) o) by (eexists; eexists; vm_compute; reflexivity).
+  assert (O1 : snd (sync_error d3 11 1 [] "com.err" [] []) = [(10, RError c_CALL 7 [] "com.err" [] [])])
+    by (vm_compute; reflexivity).
+  assert (O3 : snd (sync_yield hd2 12 1 [] [vnat 5] []) = [(10, RResult 7 [] [vnat 5] [])])
+    by (vm_compute; reflexivity).
+  assert (W2 : dealer_wf (lk 1 1) hd2).
+  { pose proof (call_wf cfg0 (lk 1 0) 9 hd1 s10 7 [] "com.x" [] [] 0 W1 (lk_ok 1 0)) as H.
+    destruct E2 as (d' & o & E). unfold hd2. fold hcall in H. rewrite E in H. rewrite E. cbn [call_state].
+    destruct H as [_ H].
+    - apply lk_nowrap; vm_compute; reflexivity.
+    - apply att; cbn; auto.
+    - apply H; [apply lk_le; vm_compute; discriminate | reflexivity]. }
+  split.
+  { change (chained dealer (option callid) d3 [hx1; hx2; hx3]); cbn [chained];
+    unfold src, tgt, hx1, hx2, hx3; cbn [fst snd]; repeat split. }
+  split.
+  - change ([] ++ hx1 :: [hx2] ++ hx3 :: []) with [hx1; hx2; hx3].
+    constructor; [apply (DS_error (lk 1 0)); exact wf_d3|].
+    constructor; [apply (DS_call cfg0 (lk 1 0)); exact W1|].
+    constructor; [apply (DS_yield (lk 1 1)); exact W2 | constructor].
+  - unfold outp, lab, hx1, hx2, hx3; cbn [fst snd]. rewrite O1, O3. split; [|split].
+    + eexists. split; [left; reflexivity | reflexivity].
+    + eexists. split; [left; reflexivity | eexists; reflexivity].
+    + reflexivity.
 Qed.
